@@ -10,6 +10,7 @@ terminates, nothing escapes, no rule failure is swallowed, the siblings' finding
 
 from __future__ import annotations
 
+import os
 import re
 import signal
 from pathlib import Path
@@ -39,7 +40,8 @@ MIN_NONTRIVIAL = {"quick": 10000, "thorough": 100000}
 EXTS = [".py", ".ts", ".js", ".rs", ".tsx", ""]
 INTERESTING = [0x00, 0xEF, 0xBB, 0xBF, 0x0D, 0x0A, 0x0C, 0x80, 0xFF, 0x22, 0x27, 0x60, 0x28, 0x29, 0x5B, 0x5D, 0x7B, 0x7D, 0x23, 0x2F, 0x5C, 0x40, 0x3A, 0x20]
 POISON = [b"\x00", b"\xef\xbb\xbf", b"\xff", b"\r", "\u2028".encode(), b"\x0c", b'"']
-SIB = {"sib_a.py": "def sibling_a(value, mode):\n    print(value, 3601)\n    if mode == \"fast\" or mode == \"slow\":\n        return value * 2\n    return value\n", "sib_b.ts": "export function siblingB(v: number) {\n  console.log(v);\n  return v * 3601;\n}\n"}
+_TOP = "alpha = source_value\nbeta = alpha + offset_one\ngamma = beta + offset_two\ndelta = gamma + offset_three\nepsilon = delta + offset_four\n\n\n"
+SIB = {"sib_a.py": _TOP + "def sibling_a(value, mode):\n    print(value, 3601)\n    if mode == \"fast\" or mode == \"slow\":\n        return value * 2\n    return value\n", "sib_c.py": _TOP + "def sibling_c(job):\n    return job\n", "sib_b.ts": "export function siblingB(v: number) {\n  console.log(v);\n  return v * 3601;\n}\n"}
 
 
 class _Timeout(Exception):
@@ -51,6 +53,9 @@ def _alarm(_s, _f):
 
 
 DIRECTIVE_SEEDS = [
+    ("imports/python", ".py", "from os import (\n    path,\n    sep,\n)\nfrom typing import (\n    Any,\n)\n\n\ndef use(v: Any):\n    return path.join(sep, str(v))\n"),
+    ("directives-long-lists/python", ".py", "def rate(v):\n    print(v, 3601)  # thailint: ignore[improper-logging,magic-numbers,nesting.excessive-depth,srp]\n    return v * 3602  # thailint: ignore[magic-numbers.numeric-literal,improper-logging.print-statement]\n"),
+    ("directives-long-lists/typescript", ".ts", "export function rate(v: number) {\n  console.log(v, 3601); // thailint: ignore[improper-logging,magic-numbers,nesting.excessive-depth,srp]\n  return v * 3602; // thailint: ignore[magic-numbers.numeric-literal,improper-logging.print-statement]\n}\n"),
     ("directives/python", ".py", "# thailint: ignore-file[file-header]\ndef rate(v):\n    print(v)  # thailint: ignore[improper-logging]\n    # thailint: ignore-next-line[magic-numbers]\n    limit = 3601\n    # thailint: ignore-start nesting\n    if v:\n        return limit\n    # thailint: ignore-end\n    return v * 3602  # thailint: ignore[magic-numbers]\n"),
     ("directives/typescript", ".ts", "// thailint: ignore-file[file-header]\nexport function rate(v: number) {\n  console.log(v); // thailint: ignore[improper-logging]\n  // thailint: ignore-next-line[magic-numbers]\n  const limit = 3601;\n  return v * 3602 + limit; // thailint: ignore[magic-numbers]\n}\n"),
     ("directives/rust", ".rs", "fn rate(v: Option<i32>) -> i32 {\n    let x = v.unwrap(); // thailint: ignore[unwrap-abuse]\n    x * 3602 // thailint: ignore[magic-numbers]\n}\n"),
@@ -133,39 +138,116 @@ def _sw_sig(rec: str):
     return {"rule": "?", "exc": rec[-40:]}
 
 
-def _run_cases(acc: Acc, cases, kind, fault_position: int = 0):
-    """cases: list of (file name, bytes, descriptor); fault_position = index of the faulty file in
-    the list handed to lint_files (0 = before the healthy files, 1 = between them)"""
-    root = project(dict(SIB))
+HANG_SECONDS = 20
+
+
+def _child_loop(root, cases, start, fault_position, wfd):
+    """Runs in a forked child: lint cases[start:] one after the other on one long-lived
+    orchestrator and stream one JSON line per case; the parent kills us when a case hangs (a
+    catastrophic regular expression cannot be interrupted by a signal handler in-process)."""
+    import json as _json  # noqa: PLC0415
+
+    out = os.fdopen(wfd, "w")
     o = _orch(root)
     sib_paths = [root / n for n in SIB]
-    base, _sw = _lint_case(o, root, sib_paths)
-    base_sib = obs.norm(base[1], root, root) if base[0] == "ok" else None
-    for fname, content, desc in cases:
+    for idx in range(start, len(cases)):
+        fname, content, _desc = cases[idx]
+        out.write(_json.dumps({"start": idx}) + "\n")
+        out.flush()
         p = root / fname
         p.write_bytes(content)
         order = [*sib_paths[:fault_position], p, *sib_paths[fault_position:]]
         res, sw = _lint_case(o, root, order)
+        if res[0] != "ok":
+            o = _orch(root)
+        payload = {"done": idx, "status": res[0], "sw": sw}
+        if res[0] == "ok":
+            payload["viol"] = [list(t) for t in obs.norm(res[1], root, root)]
+        else:
+            payload["detail"] = res[1] if isinstance(res[1], str) else ""
+        out.write(_json.dumps(payload, default=str) + "\n")
+        out.flush()
+        p.unlink(missing_ok=True)
+    out.close()
+    os._exit(0)
+
+
+def _run_cases(acc: Acc, cases, kind, fault_position: int = 0):
+    """cases: list of (file name, bytes, descriptor); fault_position = index of the faulty file in
+    the list handed to lint_files (0 = before the healthy files, 1 = after the first of them)"""
+    import json as _json  # noqa: PLC0415
+    import select  # noqa: PLC0415
+
+    root = project(dict(SIB))
+    sib_paths = [root / n for n in SIB]
+    base, _sw = _lint_case(_orch(root), root, sib_paths)
+    base_sib = obs.norm(base[1], root, root) if base[0] == "ok" else None
+    results: dict[int, dict] = {}
+    start = 0
+    while start < len(cases):
+        rfd, wfd = os.pipe()
+        pid = os.fork()
+        if pid == 0:
+            os.close(rfd)
+            try:
+                _child_loop(root, cases, start, fault_position, wfd)
+            finally:
+                os._exit(1)
+        os.close(wfd)
+        buf, current, finished = b"", None, False
+        while True:
+            ready, _w, _x = select.select([rfd], [], [], HANG_SECONDS)
+            if not ready:
+                break  # no progress: the child hangs in `current`
+            chunk = os.read(rfd, 65536)
+            if not chunk:
+                finished = True
+                break
+            buf += chunk
+            while b"\n" in buf:
+                line, buf = buf.split(b"\n", 1)
+                msg = _json.loads(line)
+                if "start" in msg:
+                    current = msg["start"]
+                else:
+                    results[msg["done"]] = msg
+                    current = None
+        os.close(rfd)
+        if not finished or current is not None:
+            os.kill(pid, signal.SIGKILL)
+        os.waitpid(pid, 0)
+        if current is not None:
+            results[current] = {"done": current, "status": "timeout" if not finished else "died", "sw": []}
+            start = current + 1
+        elif finished:
+            missing = [i for i in range(start, len(cases)) if i not in results]
+            if not missing:
+                break
+            results[missing[0]] = {"done": missing[0], "status": "died", "sw": []}
+            start = missing[0] + 1
+        else:
+            start = max(results, default=start - 1) + 1
+    for idx, (fname, content, desc) in enumerate(cases):
+        msg = results.get(idx, {"status": "died", "sw": []})
         acc.case()
         acc.valid()
         acc.nt((fname, content, fault_position))
         ext = Path(fname).suffix or "<none>"
         case = {"file": fname, "content_hex": content[:4000].hex(), "desc": desc, "kind": kind, "fault_position": fault_position}
-        acc.outcome((res[0], len(sw)))
-        if res[0] == "timeout":
-            acc.fail({"mode": "hang", "ext": ext, "fault": desc.split("@")[0]}, case, "terminates", "no result within 10 s")
-            o = _orch(root)
-        elif res[0] == "exception":
-            acc.fail({"mode": "exception-escapes", "ext": ext, "exc": res[1].split(":")[0]}, case, "exit 0/1 (no exception escapes lint_files)", res[1])
-            o = _orch(root)
+        acc.outcome((msg["status"], len(msg["sw"])))
+        if msg["status"] == "timeout":
+            acc.fail({"mode": "hang", "ext": ext, "fault": desc.split("@")[0]}, case, "terminates", f"no result within {HANG_SECONDS} s (process killed)")
+        elif msg["status"] == "died":
+            acc.fail({"mode": "process-died", "ext": ext, "fault": desc.split("@")[0]}, case, "terminates normally", "the linting process died")
+        elif msg["status"] == "exception":
+            acc.fail({"mode": "exception-escapes", "ext": ext, "exc": msg.get("detail", "").split(":")[0]}, case, "exit 0/1 (no exception escapes lint_files)", msg.get("detail", ""))
         else:
-            got_sib = [t for t in obs.norm(res[1], root, root) if t[1] in SIB]
-            if base_sib is not None and got_sib != base_sib:
+            got_sib = [tuple(t) for t in msg.get("viol", []) if t[1] in SIB]
+            if base_sib is not None and got_sib != [tuple(t) for t in base_sib]:
                 acc.fail({"mode": "siblings-changed", "ext": ext}, case, base_sib[:3], got_sib[:3], "the healthy files' findings changed because of the faulty file")
-        for rec in sw:
-            s = _sw_sig(rec)
-            acc.fail({"mode": "swallowed-rule-failure", "ext": ext, **s}, case, "no rule fails internally", rec[:300])
-        p.unlink(missing_ok=True)
+        for rec in msg["sw"]:
+            s_ = _sw_sig(rec)
+            acc.fail({"mode": "swallowed-rule-failure", "ext": ext, **s_}, case, "no rule fails internally", rec[:300])
     remove(root)
 
 
